@@ -267,4 +267,9 @@ def main(tier: str) -> int:
         r = clean[v["l"] - 1]
         cls = "looks-like-bool" if r["kind"] == "str" and r["repr"].strip("'\"").lower() in ("true", "false") else ""
         run.violation(f"{v['clause']}|{r['carrier']}|{r['kind']}|{cls}", {"kind": v["clause"], "record": {**r, "text": "".join(map(chr, r.get("text", [])))}})
+    # MetaStore.tla: the typed fields of meta.xml (strings, dates, durations, counters) are independent, read back what was stored,
+    # also after save and reopen; refused values change nothing
+    from harness.meta_lib import run_meta_part
+
+    run_meta_part(run, tier)
     return run.finish()
